@@ -1100,9 +1100,9 @@ impl<'a> GeneratorState<'a> {
     fn generate_strobe_statement(&mut self, expr: &Expr, pos: usize) -> Result<(), Error> {
         match expr {
             Expr::Identifier(name, _) => {
-                let v = self.compiler_state.get_variable(name);
-                match v.var_type {
-                    VariableType::CharPtr => {
+                // X, Y and function names are identifiers that are not variables
+                match self.compiler_state.variables.get(name).map(|v| v.var_type) {
+                    Some(VariableType::CharPtr) => {
                         self.asm(STA, &ExprType::Absolute(name.clone(), true, 0), pos, false)?;
                         Ok(())
                     }
